@@ -337,6 +337,10 @@ func (e *regEnv) sync(id int, out int) bool {
 		e.o.Violate("C09", "release-more-than-present", fmt.Sprintf("asked %d of %d", rel, len(e.tables[id])), e.replay())
 		rel = len(e.tables[id])
 	}
+	if rel < 0 {
+		e.o.Violate("C09", "negative-release-count", fmt.Sprintf("SyncState(%s) asks to release %d players", tid, rel), e.replay())
+		rel = 0
+	}
 	cur := e.tables[id]
 	relps := append([]int{}, cur[len(cur)-rel:]...)
 	e.tables[id] = cur[:len(cur)-rel]
